@@ -236,6 +236,22 @@ def run_lines(binary, lines, timeout=1500, shards=16, env=None):
                 continue
             sp = line.split(' ', 1)
             res[sp[0]] = sp[1] if len(sp) > 1 else ''
+    # a process that died (abort, stack overflow, kill) loses the rest of its shard: rerun the missing cases one per process
+    missing = [ln for ln in lines if ln.split()[1] not in res]
+    if missing and len(missing) < len(lines) or (missing and len(lines) <= 4):
+        for ln in missing[:400]:
+            try:
+                p = subprocess.run([binary], input=ln + '\n', capture_output=True, text=True, timeout=60, env=e)
+                got = False
+                for line in p.stdout.split('\n'):
+                    if line:
+                        sp = line.split(' ', 1)
+                        res[sp[0]] = sp[1] if len(sp) > 1 else ''
+                        got = True
+                if not got:
+                    res[ln.split()[1]] = f'CRASH process died without output (exit code {p.returncode}) {p.stderr[-200:].strip()}'
+            except subprocess.TimeoutExpired:
+                res[ln.split()[1]] = 'CRASH no output within 60 s (hang)'
     return res
 
 def correspond(ctx, name, lines, impl_filter=None, canon=None, trivial=None):
